@@ -1278,6 +1278,9 @@ def run(ctx):
     finally:
         try:
             extra_oracles.unfitted_edge_inputs(ctx)
+            from .. import extra_oracles3
+            extra_oracles3.gm_failed_column_state(ctx)
+            extra_oracles3.uni_fit_ambient(ctx)
         except Exception as ex:
             ctx.obligation('oracle:extra:raised', False, 'correspondence', repr(ex))
             ctx.violation('oracle:extra:raised:' + type(ex).__name__, 'edge-input oracle raised ' + repr(ex), {'repro': '# see tools/vf/extra_oracles.py'})
